@@ -3,7 +3,11 @@
 //!   record <driver> <out.ndjson> [args]  impl -> spec (M3): run a driver, log events for TLC
 mod hist;
 mod net;
+mod ser;
 mod util;
+
+#[global_allocator]
+static GLOBAL: ser::Counting = ser::Counting;
 
 fn main() {
     util::quiet_panics();
@@ -43,6 +47,9 @@ fn main() {
             }
             rep.write(&args[3]);
         }
+        "c09child" => {
+            ser::c09_child(&args[2], args.get(3).map(|s| s == "1").unwrap_or(false), args.get(4).map(|s| s == "1").unwrap_or(true));
+        }
         "record" => {
             if args.len() < 4 {
                 eprintln!("usage: verif-harness record <driver> <out.ndjson> [seed] [n]");
@@ -52,6 +59,12 @@ fn main() {
             let n: usize = args.get(5).and_then(|s| s.parse().ok()).unwrap_or(1000);
             match args[2].as_str() {
                 "c02" => net::record_c02(&args[3], seed, n),
+                "c09" => {
+                    let children: usize = args.get(6).and_then(|s| s.parse().ok()).unwrap_or(2);
+                    let wd = args.get(7).cloned().unwrap_or_else(|| "/verif/.work".to_string());
+                    ser::record_c09(&args[3], seed, n, children, &wd)
+                }
+                "c10" => ser::record_c10(&args[3], seed, n > 1),
                 other => {
                     eprintln!("harness: unknown driver {:?}", other);
                     std::process::exit(2);
